@@ -26,13 +26,15 @@ Sub(u, t) == \/ u = t
 NT(b, q) == [b |-> b, q |-> q]
 NoneT == NT("None", TRUE)
 SubN(u, t) == IF t.b = "None" THEN u.q ELSE (u.q \/ ~t.q) /\ Sub(u.b, t.b)
-TyStr(t) == IF t.q THEN t.b \o "?" ELSE t.b
+\* ("Pair" is the tuple type (Int, Int): only used as the type of an ARGUMENT that arrives at a parameter of another type)
+BaseStr(b) == IF b = "Pair" THEN "(Int, Int)" ELSE b
+TyStr(t) == IF t.q THEN BaseStr(t.b) \o "?" ELSE BaseStr(t.b)
 
 ClassDecls == << Class("A", <<>>, <<>>, <<>>, <<>>), Class("B", <<>>, <<Parent("A", <<>>)>>, <<>>, <<>>),
                  Class("C", <<>>, <<>>, <<>>, <<>>), Class("D", <<>>, <<Parent("B", <<>>)>>, <<>>, <<>>) >>
 
 \* canonical expressions of a type: literal / constructor call, or a variable defined in the setup
-Lit(ty) == CASE ty = "K" -> New("K", <<>>) [] ty = "Int" -> IntL(1) [] ty = "Float" -> FloatL("1.5") [] ty = "Str" -> StrL("s") [] ty = "Bool" -> BoolL(TRUE)
+Lit(ty) == CASE ty = "Pair" -> TupL(<<IntL(1), IntL(2)>>) [] ty = "K" -> New("K", <<>>) [] ty = "Int" -> IntL(1) [] ty = "Float" -> FloatL("1.5") [] ty = "Str" -> StrL("s") [] ty = "Bool" -> BoolL(TRUE)
              [] ty = "None" -> NoneL [] ty \in Classes -> New(ty, <<>>)
 VarName(t) == (IF t.q THEN "n_" ELSE "v_") \o t.b
 VarOf(t)   == Var(VarName(t))
